@@ -416,18 +416,32 @@ theorem tokensOf_encodes (ts : List Transaction)
     simp only [List.map_cons, List.flatten_cons]
     rw [tokensOf_encode_cons t hp hfit, ih (fun u hu => h u (by simp [hu]))]
 
+theorem loop_cons_ok {W O : Type} (handle : W → Transaction → W × List O) (w : W) (st : Scan.Status)
+    (tok : Bytes) (rest : List Bytes) (t : Transaction) (h : Transaction.decode tok = .ok t) :
+    loop handle w st (tok :: rest) =
+      ⟨(loop handle (handle w t).1 st rest).world, (handle w t).2 ++ (loop handle (handle w t).1 st rest).outs,
+       t :: (loop handle (handle w t).1 st rest).dispatched, (loop handle (handle w t).1 st rest).why⟩ := by
+  rw [loop]
+  split
+  · rename_i u hu
+    rw [h] at hu
+    injection hu with hu
+    subst hu
+    rfl
+  · rename_i hu; rw [h] at hu; cases hu
+  · rename_i hu; rw [h] at hu; cases hu
+
 /-- The loop over emitted transactions dispatches every one of them, in order. -/
 theorem loop_encodes {W O : Type} (handle : W → Transaction → W × List O) (w : W) (st : Scan.Status)
     (ts : List Transaction) (h : ∀ t ∈ ts, t.WFdec) :
     (loop handle w st (ts.map Transaction.encode)).dispatched = ts ∧
     (loop handle w st (ts.map Transaction.encode)).why = EndReason.ofStatus st := by
   induction ts generalizing w with
-  | nil => simp [loop]
+  | nil => exact ⟨rfl, rfl⟩
   | cons t ts ih =>
-    simp only [List.map_cons, loop]
-    rw [Transaction.decode_encode' t (h t (by simp))]
+    rw [List.map_cons, loop_cons_ok handle w st _ _ t (Transaction.decode_encode' t (h t (by simp)))]
     obtain ⟨i1, i2⟩ := ih (handle w t).1 (fun u hu => h u (by simp [hu]))
-    simp only [i1, i2, and_self]
+    exact ⟨by rw [i1], i2⟩
 
 -- ---------------------------------------------------------------- the ban gate inside the session (C17)
 
